@@ -23,6 +23,10 @@ gi = 3
 gs = "s"
 gb = true
 gf = 1.5
+goi: int? = 3
+gob: bool? = true
+gos: str? = "o"
+gof: float? = 2.5
 gl: [int...] = [1, 2, 3]
 gsl: [str...] = ["a", "b"]
 gm = map[str, int] { "a": 1, "b": 2 }
@@ -74,6 +78,7 @@ POOL = {
     "float": ["2.5", "gf", "(gf * 2.0)", "ff(1.5)"],
 }
 FN_OF = {"int": "fi", "str": "fs", "float": "ff"}
+OPT_OF = {"int": "goi", "bool": "gob", "str": "gos", "float": "gof"}       # a `T?` is not a `T` (it may be nil)
 # (lhs type, operator, rhs type) combinations with NO entry in TypeLayout::get_output_type
 BAD_OPS = [("bool", "+", "int"), ("str", "-", "int"), ("bool", "<", "bool"), ("int", "&&", "bool"), ("int", "==", "str"),
            ("str", "<", "str"), ("bool", "*", "bool"), ("int", "||", "int"), ("float", "==", "bool"), ("str", "/", "str"),
@@ -127,6 +132,7 @@ class G:
         w, t2 = self.wrong(ty)
         return St("decl_annot", ["v%d: %s = %s" % (n, ty, self.e(ty))],
                   [("wrong_init", ["v%d: %s = %s" % (n, ty, w)], (0, 0), "%s <- %s" % (ty, t2)),
+                   ("wrong_init", ["v%d: %s = %s" % (n, ty, OPT_OF[ty])], (0, 0), "%s <- %s? (optional where a plain value is required)" % (ty, ty)),
                    ("unknown_name", ["v%d: %s = nope%d" % (n, ty, n)], (0, 0), "")])
 
     def t_decl_alias(self):
@@ -168,6 +174,7 @@ class G:
         a = self.e(ty)
         return St("call1", ["r%d = %s(%s)" % (n, f, a)],
                   [("wrong_arg_type", ["r%d = %s(%s)" % (n, f, w)], (0, 0), "%s <- %s" % (ty, t2)),
+                   ("wrong_arg_type", ["r%d = %s(%s)" % (n, f, OPT_OF[ty])], (0, 0), "%s <- %s? (optional argument)" % (ty, ty)),
                    ("arg_count_less", ["r%d = %s()" % (n, f)], (0, 0), "1 -> 0"),
                    ("arg_count_more", ["r%d = %s(%s, %s)" % (n, f, a, self.e(ty))], (0, 0), "1 -> 2"),
                    ("unknown_name", ["r%d = nofn%d(%s)" % (n, n, a)], (0, 0), "callee"),
@@ -235,13 +242,15 @@ class G:
         w, t2 = self.wrong("bool")
         return St("if_cond", ["if %s {" % self.e("bool"), "  w%d = 1" % n, "}"],
                   [("non_bool_condition", ["if %s {" % w, "  w%d = 1" % n, "}"], (0, 2), "if <- %s" % t2),
+                   ("non_bool_condition", ["if gob {", "  w%d = 1" % n, "}"], (0, 2), "if <- bool? (an optional is not a condition)"),
                    ("unknown_name", ["if nope%d {" % n, "  w%d = 1" % n, "}"], (0, 2), "")])
 
     def t_cond_while(self):
         n = self.uid()
         w, t2 = self.wrong("bool")
         return St("while_cond", ["while %s {" % self.e("bool"), "  break", "}"],
-                  [("non_bool_condition", ["while %s {" % w, "  break", "}"], (0, 2), "while <- %s" % t2)])
+                  [("non_bool_condition", ["while %s {" % w, "  break", "}"], (0, 2), "while <- %s" % t2),
+                   ("non_bool_condition", ["while gob {", "  break", "}"], (0, 2), "while <- bool?")])
 
     def t_cond_elseif(self):
         n = self.uid()
@@ -254,8 +263,11 @@ class G:
         m2[3] = "  x%d: int = %s" % (n, w3)
         m3 = list(base)
         m3[5] = "  y%d = fi(%s)" % (n, w3)
+        m4 = list(base)
+        m4[2] = "} else if gob {"
         return St("else_if", base,
                   [("non_bool_condition", m1, (0, 6), "else if <- %s" % t2),
+                   ("non_bool_condition", m4, (0, 6), "else if <- bool?"),
                    ("wrong_init", m2, (3, 3), "inside else-if: int <- %s" % t3),
                    ("wrong_arg_type", m3, (5, 5), "inside else: int <- %s" % t3)])
 
@@ -1042,6 +1054,11 @@ def run(ctx):
             discarded.append({"program": text[len(PREAMBLE):][:600], "rc": r[0], "why": why[0], "source": src})
             if r[0] == 101:
                 ctx.report("panic:base-program", "compiler panic on a well-typed generated program: %s" % r[2][-300:], {"files": files_of(text, wl)})
+            else:
+                # every template's unmutated program is accepted by the unchanged tree: a rejected one means a VALID program is
+                # no longer accepted, and all the mutants of that program go unchecked -- that is reported, not skipped
+                ctx.report("base-program-rejected", "a well-typed generated program is no longer accepted (its mutants cannot be checked): %s" % why[0][:200],
+                           {"files": files_of(text, wl), "rc": r[0], "output": (r[1] + r[2])[-600:]}, found_input=False)
             continue
         for st, m, path in all_sites(items):
             mt, span, p2 = render(items, (st, m), with_lib=wl)
